@@ -600,7 +600,13 @@ def resolve_type_params(
     result = {typ: resolved_type_params}
     type_params = []
 
-    for base in get_orig_bases(typ):
+    orig_bases = get_orig_bases(typ)
+    for base in orig_bases:
+        if get_type_origin(base) is typing.Generic:
+            # an explicit Generic[...] alone fixes the order of parameters
+            orig_bases = (base,)
+            break
+    for base in orig_bases:
         base_type_params = collect_type_params(base)
         for type_param in base_type_params:
             if type_param not in type_params:
